@@ -654,7 +654,13 @@ class KnownValue(Value):
         elif isinstance(self.val, type):
             return f"type {get_fully_qualified_name(self.val)!r}"
         else:
-            return f"Literal[{self.val!r}]"
+            try:
+                text = repr(self.val)
+            except Exception:
+                # e.g. an int with more digits than sys.get_int_max_str_digits(), a
+                # very deeply nested tuple, or a user-defined __repr__ that raises
+                text = f"<{type(self.val).__name__} object>"
+            return f"Literal[{text}]"
 
     def substitute_typevars(self, typevars: TypeVarMap) -> "KnownValue":
         if not typevars or not callable(self.val):
